@@ -128,6 +128,40 @@ Fixpoint run_lru (c : cfg) (st : lstate) (ops : list (Z * Z)) : list bool :=
     else let '(st', d) := record_and_check_l c st k t in d :: run_lru c st' r
   end.
 
+(* ================= several rules: ModulePrison.processRules / processPrisonRules =================
+   Every rule of the list whose condition matches the request records and checks it with its OWN dictionaries; a rule
+   that does not deny lets the loop CONTINUE with the next rule; a denying rule with action CLOSE (cmd 0) or FINISH
+   (cmd 1) ends the processing, with another action the loop continues.  Global rules first, then the product's.
+   Generic in the per-rule machine (state S, one recordAndCheck step). *)
+Record mrule := { m_cfg : cfg; m_match : bool; m_cmd : Z }.
+Section Multi.
+  Variable S : Type.
+  Variable rstep : cfg -> S -> Z -> Z -> S * bool.
+  (* result: new rule states, (return code 0 go on / 1 close / 2 finish, AllChecked increment, AllPrison increment) *)
+  Fixpoint process_rules (rs : list (mrule * S)) (k t : Z) : list (mrule * S) * (Z * Z * Z) :=
+    match rs with
+    | [] => ([], (0, 0, 0))
+    | (r, st) :: rest =>
+      if negb (m_match r) then
+        let '(rest', (ret, c, p)) := process_rules rest k t in ((r, st) :: rest', (ret, c, p))
+      else
+        let '(st', d) := rstep (m_cfg r) st k t in
+        if d && (m_cmd r =? 0) then ((r, st') :: rest, (1, 1, 1))
+        else if d && (m_cmd r =? 1) then ((r, st') :: rest, (2, 1, 1))
+        else let '(rest', (ret, c, p)) := process_rules rest k t in
+             ((r, st') :: rest', (ret, c + 1, p + (if d then 1 else 0)))
+    end.
+  Definition process_all (g p : list (mrule * S)) (k t : Z) : list (mrule * S) * list (mrule * S) * (Z * Z * Z) :=
+    let '(g', (ret, c, pr)) := process_rules g k t in
+    if ret =? 0 then let '(p', (ret2, c2, pr2)) := process_rules p k t in (g', p', (ret2, c + c2, pr + pr2))
+    else (g', p, (ret, c, pr)).
+  Fixpoint run_multi (g p : list (mrule * S)) (ops : list (Z * Z)) : list (Z * Z * Z) :=
+    match ops with
+    | [] => []
+    | (k, t) :: r => let '(g', p', o) := process_all g p k t in o :: run_multi g' p' r
+    end.
+End Multi.
+
 (* ---- vocabulary for the "below the threshold" statement *)
 (* number of request times in l that fall into the closed window [a, b] *)
 Fixpoint count_in (l : list Z) (a b : Z) : Z :=
